@@ -1,8 +1,8 @@
 """Which suites, theorems and extracted data decide which property."""
-from . import dhcpwire, pool
+from . import dhcpwire, pool, dhcp
 
 SUITES = {}
-for cls in [dhcpwire.DhcpRoundTrip, dhcpwire.DhcpParse, dhcpwire.Frame, dhcpwire.BroadcastFlag, pool.PoolHistory]:
+for cls in [dhcpwire.DhcpRoundTrip, dhcpwire.DhcpParse, dhcpwire.Frame, dhcpwire.BroadcastFlag, pool.PoolHistory, dhcp.DhcpHistory]:
     SUITES[cls.name] = cls()
 
 TRUSTED_BASE = [
@@ -20,6 +20,14 @@ POOL_ASSUME = ["packets are handled one at a time (the tokio mutex around the po
                "the wall clock does not go backwards; times stay below 2^32 s (year 2106)"]
 POOL_TRUST = ["SQLite modelled as a finite map address -> row with INSERT OR REPLACE / ORDER BY .. LIMIT 1 semantics; ties and the consistent-hash order are nondeterministic in the model",
               "the harness overrides clock_gettime(CLOCK_REALTIME) in-process to own the clock"]
+
+DHCP_RULE = ("YAML configurations generated from the grammar of erbium.conf(5) (top-level addresses /24../32 with and without "
+             "host bits, dns-servers with $self4, search list, captive portal, nested dhcp-policies to depth 3 with match-subnet/"
+             "match-hardware-address/match-<option>(value|null), apply-<option>(value|null), apply-subnet/range/address) loaded by "
+             "the real loader, then histories of 1..25 DHCP packets (every message type incl. none/unknown, client-id or chaddr, "
+             "option 50/ciaddr, server-id own/foreign/malformed, parameter lists) and clock advances through dhcp::handle_pkt; "
+             "non-trivial = at least one reply; distinct = distinct line")
+DHCP_TRUST = ["yaml_rust and the loader turn the text into config::Policy values; the model starts from the loaded policy tree dumped by the harness (option values via as_bytes)"]
 
 # property -> suites (name, cases quick, cases thorough), extracted items, notes
 PROPS = {
@@ -47,9 +55,14 @@ PROPS = {
         assumptions=POOL_ASSUME, trusted=POOL_TRUST,
     ),
     "C10": dict(
-        suites=[("pool", 2500, 60000)],
-        extracted=["dhcp.DEFAULT_MIN_LEASE", "dhcp.DEFAULT_MAX_LEASE"],
-        rule=POOL_RULE, assumptions=POOL_ASSUME, trusted=POOL_TRUST,
+        suites=[("pool", 2500, 60000), ("dhcp", 1200, 30000)],
+        extracted=["dhcp.DEFAULT_MIN_LEASE", "dhcp.DEFAULT_MAX_LEASE", "dhcp.offerHasLeaseTime"],
+        rule=POOL_RULE + " || " + DHCP_RULE, assumptions=POOL_ASSUME, trusted=POOL_TRUST + DHCP_TRUST,
+    ),
+    "C13": dict(
+        suites=[("dhcp", 1500, 40000), ("pool", 1000, 20000)],
+        extracted=["dhcp.dispatchArms", "dhcp.offerHasLeaseTime"],
+        rule=DHCP_RULE + " || " + POOL_RULE, assumptions=POOL_ASSUME, trusted=POOL_TRUST + DHCP_TRUST,
     ),
     "C20": dict(
         suites=[("pool", 2500, 60000)],
